@@ -270,7 +270,8 @@ def well_formed(case, vals):
             continue
         if t["kind"] != "array" or len(pr["region"]) != len(t["shape"]):
             return False
-        for (s, e, st), n, cs, m in zip(pr["region"], t["shape"], t["chunks"], v.shape):
+        # a sharded target is written by whole shards: the shard shape is what the region must align with
+        for (s, e, st), n, cs, m in zip(pr["region"], t["shape"], t.get("shards") or t["chunks"], v.shape):
             if st not in (None, 1):
                 return False
             s0, e0, _ = slice(s, e, None).indices(n)
@@ -405,7 +406,7 @@ def classify(case, info):
             if t.get("shards"):
                 return False
             return not all(c % tc == 0 or c >= n for n, c, tc in zip(shape, sc, t["chunks"]))
-        return [min(tc, n) for tc, n in zip(t["chunks"], shape)] != sc
+        return [min(tc, n) for tc, n in zip(t.get("shards") or t["chunks"], shape)] != sc
 
     # pairs that re-target their (lazy) source in place
     # (a source re-targeted into an *existing* array is no longer lazy for the pairs that follow: they copy from there)
@@ -434,14 +435,6 @@ def classify(case, info):
         eff = [ident[d] for d in deps[p["src"]]]
         if any(d in moved for d in eff):
             return "store-lazy-source-with-dependant"
-    # region store into a sharded array: one task per *inner* chunk, so several tasks read-modify-write the same
-    # shard - lost updates under a parallel executor (values are right on the single-threaded executor)
-    if case["executor"] == "threads":
-        for p in pairs:
-            t = p["target"]
-            if t["kind"] == "array" and t.get("shards") and p["region"] is not None and not noregion(p) \
-                    and list(t["shards"]) != list(t["chunks"]):
-                return "region-sharded-target-shared-shard"
     return None
 
 
